@@ -179,6 +179,108 @@ def check_method_alternation(ctx) -> None:
     ctx.floor(rule, n, 1, "alternations built from the list of reference methods")
 
 
+MEMO_CTORS = {"dict", "OrderedDict", "defaultdict", "collections.OrderedDict", "collections.defaultdict", "WeakValueDictionary",
+              "weakref.WeakValueDictionary"}
+
+
+def check_parse_is_a_function_of_its_arguments(ctx) -> None:
+    """R11 (seed C09-13): the functions that parse a reference, and the constructors that call them, may remember results in a
+    process-wide container only under a key that names every argument the parse depends on, unmodified.  ``(name, index or 0)``
+    files the identifier built WITHOUT a stage under the one built for stage 0: whichever is parsed first decides both."""
+    rule = "C09.R11-parse-is-a-function-of-its-arguments"
+    scanned = 0
+    for path in (FLOWIR, "python/experiment/model/graph.py", "python/experiment/model/conf.py", "python/experiment/model/data.py"):
+        mod = ctx.repo.module(path)
+        shared: dict = {}       # (class name or None, attribute / name) -> node of the process-wide mutable container
+        for st in mod.tree.body:
+            if isinstance(st, (ast.Assign, ast.AnnAssign)):
+                tg = st.targets if isinstance(st, ast.Assign) else [st.target]
+                v = st.value
+                if v is not None and (isinstance(v, ast.Dict) or (isinstance(v, ast.Call) and (call_name(v) or "") in MEMO_CTORS)):
+                    for t in tg:
+                        if isinstance(t, ast.Name):
+                            shared[(None, t.id)] = st
+            elif isinstance(st, ast.ClassDef):
+                for cst in st.body:
+                    if isinstance(cst, (ast.Assign, ast.AnnAssign)):
+                        tg = cst.targets if isinstance(cst, ast.Assign) else [cst.target]
+                        v = cst.value
+                        if v is not None and (isinstance(v, ast.Dict) or (isinstance(v, ast.Call) and (call_name(v) or "") in MEMO_CTORS)):
+                            for t in tg:
+                                if isinstance(t, ast.Name):
+                                    shared[(st.name, t.id)] = cst
+        for qn, fn in mod.functions.items():
+            parse_calls = [c for c in source.calls_in(fn) if (last_attr(c) or call_name(c) or "").startswith(("ParseProducerReference", "ParseDataReference"))]
+            is_parser = fn.name.startswith(("ParseProducerReference", "ParseDataReference"))
+            if not parse_calls and not is_parser:
+                continue
+            scanned += 1
+            cls_name = qn.split(".")[0] if "." in qn else None
+            params = [a.arg for a in fn.args.posonlyargs + fn.args.args + fn.args.kwonlyargs if a.arg not in ("self", "cls")]
+            # attributes of self that are plain copies of a parameter
+            alias = {}
+            for st in source.walk_own(fn):
+                if isinstance(st, ast.Assign) and isinstance(st.value, ast.Name) and st.value.id in params:
+                    for t in st.targets:
+                        if isinstance(t, ast.Attribute) and isinstance(t.value, ast.Name) and t.value.id == "self":
+                            alias["self." + t.attr] = st.value.id
+            needed = set(params) if is_parser else set()
+            for c in parse_calls:
+                for a in list(c.args) + [k.value for k in c.keywords]:
+                    for x in ast.walk(a):
+                        if isinstance(x, ast.Name) and x.id in params:
+                            needed.add(x.id)
+                        elif isinstance(x, ast.Attribute) and dotted(x) in alias:
+                            needed.add(alias[dotted(x)])
+
+            def container(e: ast.AST):
+                if isinstance(e, ast.Name) and (None, e.id) in shared and e.id not in params:
+                    return e.id
+                if isinstance(e, ast.Attribute):
+                    base = dotted(e.value) or source.src(e.value)
+                    for (cn, an) in shared:
+                        if cn is not None and an == e.attr and (base in (cn, "cls", "self", "type(self)", "self.__class__") and
+                                                                (base == cn or cn == cls_name)):
+                            return "%s.%s" % (cn, an)
+                return None
+            for st in source.walk_own(fn):
+                key = None
+                cont = None
+                if isinstance(st, ast.Assign):
+                    for t in st.targets:
+                        if isinstance(t, ast.Subscript) and container(t.value):
+                            key, cont = t.slice, container(t.value)
+                elif isinstance(st, ast.Call) and last_attr(st) == "setdefault" and isinstance(st.func, ast.Attribute) and container(st.func.value) and st.args:
+                    key, cont = st.args[0], container(st.func.value)
+                if key is None:
+                    continue
+                k = match.resolve_local(fn, key)
+                parts = list(k.elts) if isinstance(k, ast.Tuple) else [k]
+                named = set()
+                lossy = []
+                for e in parts:
+                    if isinstance(e, ast.Name) and e.id in params:
+                        named.add(e.id)
+                    elif isinstance(e, ast.Attribute) and dotted(e) in alias:
+                        named.add(alias[dotted(e)])
+                    else:
+                        lossy.append(e)
+                missing = sorted(needed - named - {x.id for e in lossy for x in ast.walk(e) if isinstance(x, ast.Name)})
+                ok = not lossy and not missing
+                ctx.ob(rule, st, ok,
+                       "results remembered in %s are keyed by the arguments of the parse themselves (%s)" % (cont, short(k, 50)) if ok else
+                       "%s remembers what it parsed in the process-wide %s under the key %s: %s - two calls that differ in what the key drops "
+                       "share one result, so the parse of a reference depends on what was parsed before it (a producer given without a stage "
+                       "and the same name given for stage 0 get whichever of (None, name, False) / (0, name, True) came first)"
+                       % (qn, cont, short(k, 60), ("the key transforms an argument (%s)" % short(lossy[0], 40)) if lossy else
+                          ("the key omits %s" % ", ".join(missing))),
+                       construct="%s: memo key names every argument of the parse" % qn)
+    ctx.require(scanned >= 4, "anchor missing: fewer than 4 functions that parse references were found (%d)" % scanned)
+    ctx.ob(rule, ctx.repo.module(FLOWIR).func("FlowIR.ParseProducerReference"), True,
+           "%d parsing functions / constructors scanned for process-wide memo tables" % scanned, trivial=True,
+           construct="parse family scanned")
+
+
 def run(ctx) -> None:
     ctx.explanation = (
         "Printer/parser separator agreement for references, sibling cross-check of the two 'is this a component "
@@ -203,6 +305,8 @@ def run(ctx) -> None:
     ctx.rule("C09.R10-application-name-drops-the-trailing-extension-only", "FlowIR.application_dependency_to_name - which decides that the first path "
              "segment of a reference is an application dependency, and names the folder the dependency is linked under - removes the TRAILING "
              "extension of the folder name (a cut at the last dot), never everything after the first dot")
+    ctx.rule("C09.R11-parse-is-a-function-of-its-arguments", "the reference parsers and the constructors that call them keep no process-wide memo "
+             "whose key drops or transforms an argument of the parse (what a reference parses to never depends on what was parsed before it)")
     ctx.rule("C09.R9-caller-stage-applies", "ParseProducerReference gives a producer that carries no stage prefix the stage its caller supplies: every "
              "path to the return takes the stage from the reference itself or consults the caller's index (absolute paths apart)")
 
@@ -560,3 +664,6 @@ def run(ctx) -> None:
         ctx.ob("C09.R10-application-name-drops-the-trailing-extension-only", right[0], True,
                "the name of an application dependency is its folder name minus the trailing extension (%s)" % short(right[0], 50),
                construct="application_dependency_to_name: the extension is cut at the last dot")
+
+    # ---------------- R11 ------------------------------------------------------------------------------
+    check_parse_is_a_function_of_its_arguments(ctx)
